@@ -19,6 +19,7 @@ UNIT = {
         ('yash-env/src/system/errno.rs', ['type RawErrno']),
         ('yash-env/src/system/errno.rs', ['struct Errno']),
         (SEM, ['struct ExitStatus']),
+        (SEM, ['impl ExitStatus#1', 'const NOT_FOUND']),
         (SEM, ['enum Divert']),
         ('@file', 'prelude.rs'),
         (WC, ['enum Error'], {}),
@@ -59,6 +60,35 @@ UNIT = {
                     'forall|k: int| 0 <= k < env.log@.len() - verif_n1 ==> (#[trigger] env.log@[verif_n1 + k]) == (Ev::Offered { signal: verif_sigs[k], ran: None::<yash_env::semantics::Result> })',
                 ]},
             }}),
+        ('yash-builtin/src/wait.rs', ['impl Command', 'fn await_jobs'], {'ret': 'r', 'rewrites': ['strip-async'],
+            'attrs': ['#[verifier::loop_isolation(false)]'],
+            'entry_ghost': 'let ghost verif_all = indexes@;',
+            'sig_token_rewrites': [('I : IntoIterator < Item = Option < usize > > ,', ''), ('indexes : I', 'indexes: Vec<Option<usize>>'), ('core :: Error', 'Error')],
+            'wrapper': 'impl Command',
+            'token_rewrites': [
+                ('for index in indexes', 'let mut verif_rest = indexes; while let Some(index) = verif_next_index(&mut verif_rest)'),
+                ('status :: wait_while_running ( env , & mut status :: job_status ( index , job_control ) )', 'verif_wait_while_running(env, Some(index))'),
+                ('status :: wait_while_running ( env , & mut status :: any_job_is_running ( job_control ) )', 'verif_wait_while_running(env, None)'),
+            ],
+            'ensures': [
+                L1 + '.len() >= ' + N0, L1 + '.subrange(0, ' + N0 + ') =~= ' + L0,
+                # without operands: all jobs are waited for, once, and that answer is the answer
+                'indexes@.len() == 0 ==> ' + L1 + ' =~= ' + L0 + '.push(Ev::WaitedFor { what: None, answer: r })',
+                # with operands: each operand that designates a job is waited for, in order, once; an operand that designates no job
+                # counts as status 127; the answer is the status of the LAST operand; nothing else is waited for
+                'indexes@.len() > 0 && r is Ok ==> ' + L1 + '.len() == ' + N0 + ' + found(indexes@).len()'
+                ' && (forall|k: int| 0 <= k < found(indexes@).len() ==> ((#[trigger] ' + L1 + '[' + N0 + ' + k]) matches Ev::WaitedFor { what, answer } && what == Some(found(indexes@)[k]) && answer is Ok))'
+                ' && (indexes@.last() is None ==> r == Ok::<ExitStatus, Error>(ExitStatus(127)))'
+                ' && (indexes@.last() is Some ==> (' + L1 + '.last() matches Ev::WaitedFor { what, answer } && answer == r))',
+            ],
+            'loops': {0: {'body_end': 'proof { assert(verif_all.subrange(0, verif_all.len() - verif_rest@.len()).drop_last() =~= verif_all.subrange(0, verif_all.len() - verif_rest@.len() - 1)); }',
+                'invariant': [
+                'verif_rest@.len() <= verif_all.len()', 'verif_rest@ =~= verif_all.subrange(verif_all.len() - verif_rest@.len(), verif_all.len() as int)',
+                'env.log@.len() == ' + N0 + ' + found(verif_all.subrange(0, verif_all.len() - verif_rest@.len())).len()', 'env.log@.subrange(0, ' + N0 + ') =~= ' + L0,
+                'forall|k: int| 0 <= k < env.log@.len() - ' + N0 + ' ==> ((#[trigger] env.log@[' + N0 + ' + k]) matches Ev::WaitedFor { what, answer } && what == Some(found(verif_all.subrange(0, verif_all.len() - verif_rest@.len()))[k]) && answer is Ok)',
+                'verif_rest@.len() == verif_all.len() ==> exit_status is None',
+                'verif_rest@.len() < verif_all.len() ==> ({ let last = verif_all[verif_all.len() - verif_rest@.len() - 1]; exit_status is Some && (last is None ==> exit_status == Some(ExitStatus(127))) && (last is Some ==> (env.log@.len() > ' + N0 + ' && (env.log@.last() matches Ev::WaitedFor { what, answer } && answer == Ok::<ExitStatus, Error>(exit_status->0)))) })',
+            ], 'decreases': ['verif_rest@.len()']}}}),
         ('@raw', '}\n'),
     ],
 }
